@@ -11,7 +11,8 @@
 (* against the real code through a scripted loopback HTTP server.           *)
 (*                                                                         *)
 (* HTTP-level response classes of one attempt:                              *)
-(*   net h429 h500 (retried) | h400 badjson trunc noitems wrongrole (fatal) *)
+(*   net h429 h500 (retried) | h400 badjson trunc noitems nokey wrongrole   *)
+(*   (fatal; error bodies carry a well-formed passing answer as bait)        *)
 (*   text(fmt, t): a 200 answer whose assistant text t is delivered in      *)
 (*   format fmt in {plain, parts, fenced, decorated}                        *)
 (* screen texts: safe unsafe missing wrongtype garbage                      *)
@@ -23,7 +24,7 @@ EXTENDS Integers, Sequences, FiniteSets, TLC, Json, IOUtils
 CONSTANTS MaxAttempts, Export
 
 Retryable == {"net", "h429", "h500"}
-Fatal == {"h400", "badjson", "trunc", "noitems", "wrongrole"}
+Fatal == {"h400", "badjson", "trunc", "noitems", "nokey", "wrongrole"}
 Formats == {"plain", "parts", "fenced", "decorated"}
 ScreenTexts == {"safe", "unsafe", "missing", "wrongtype", "garbage"}
 Verdicts == {"MATCH", "match", "Match", "SUSPICIOUS", "LIE", "PRESERVED", "preserved", "OTHER", ""}
